@@ -1007,4 +1007,154 @@ example : (run toyH (fun (n : Nat) _ => n + 1) 0
 
 end History
 
+/-! ### Literalness: a path is a sequence of code points — on the wire a sequence of BYTES — and is
+    stored, ordered, written into the manifest and hashed VERBATIM.
+
+    Nothing in `BufModel.Manifest` / `BufModel.Digest` inspects a path beyond `'/'`, `'.'`, `'\n'` and
+    equality with the few constant names, so no Unicode normalisation form is preferred, no case is
+    folded: `U+00E9` and `e U+0301` are different paths, a module may hold both, renaming one into the
+    other changes the digest, and the manifest order is the code point (= UTF-8 byte) order of the
+    literal paths.  The sensitivity theorems above already quantify over arbitrary strings; the
+    statements below make the literalness explicit.  (Invalid UTF-8 cannot be carried by `Str`; that
+    the implementation treats such bytes just as literally is checked by the oracle of Section U of
+    harness/cmd/c08 only.)  The tie to the implementation is Section U (unicode.go): independent
+    SHAKE256 over the manifest built from the literal path bytes of the generator's own bookkeeping. -/
+section Literal
+
+/-- the byte string that is hashed for a concatenation is the concatenation of the byte strings -/
+theorem utf8_append (a b : Str) : utf8 (a ++ b) = utf8 a ++ utf8 b := by
+  unfold utf8
+  rw [String.ofList_append]
+  show (String.ofList a ++ String.ofList b).toByteArray.data.toList = _
+  rw [String.toByteArray_append, ByteArray.data_append, Array.toList_append]
+  rfl
+
+/-- `NewFileNode` stores exactly the path (and digest) it was given: `FileNode.Path()` is literal. -/
+theorem newFileNode_path_literal {p : Str} {d : Digest} {n : FileNode} (h : newFileNode p d = .ok n) :
+    n.path = p ∧ n.digest = d := by
+  have := (newFileNode_eq_ok h).2
+  subst this
+  exact ⟨rfl, rfl⟩
+
+/-- `ParseFileNode` returns exactly the characters after the first double space: for every path
+    that `NewFileNode` accepts, parsing `digest[SP][SP]path` gives back that very path. -/
+theorem parseFileNode_path_literal (p : Str) (d : Digest) (h : validateNodePath p = .ok ()) :
+    parseFileNode (digestString d ++ ' ' :: ' ' :: p) = .ok ⟨p, d⟩ :=
+  parseFileNode_fileNodeString ⟨p, d⟩ h
+
+/-- two file nodes with different paths have different texts (whatever the relation between the
+    two spellings) -/
+theorem fileNodeString_path_injective (p₁ p₂ : Str) (d : Digest)
+    (h : fileNodeString ⟨p₁, d⟩ = fileNodeString ⟨p₂, d⟩) : p₁ = p₂ := by
+  unfold fileNodeString at h
+  have := List.append_cancel_left h
+  simpa using this
+
+/-- The path of every node appears VERBATIM in the manifest text, between the two spaces after its
+    digest and the line feed — as characters and, in what is hashed, as its own UTF-8 bytes. -/
+theorem manifestString_path_literal (m : Manifest) (n : FileNode) (hn : n ∈ m) :
+    ∃ pre post : Str,
+      manifestString m = pre ++ (digestString n.digest ++ ' ' :: ' ' :: n.path) ++ '\n' :: post ∧
+      utf8 (manifestString m) =
+        utf8 pre ++ (utf8 (digestString n.digest) ++ [0x20, 0x20] ++ utf8 n.path) ++ 0x0a :: utf8 post := by
+  have bytes : ∀ pre post : Str,
+      utf8 (pre ++ (digestString n.digest ++ ' ' :: ' ' :: n.path) ++ '\n' :: post) =
+        utf8 pre ++ (utf8 (digestString n.digest) ++ [0x20, 0x20] ++ utf8 n.path) ++ 0x0a :: utf8 post := by
+    intro pre post
+    have e1 : (' ' :: ' ' :: n.path) = [' ', ' '] ++ n.path := rfl
+    have e2 : ('\n' :: post) = ['\n'] ++ post := rfl
+    have b1 : utf8 [' ', ' '] = [0x20, 0x20] := by decide
+    have b2 : utf8 ['\n'] = [0x0a] := by decide
+    rw [e1, e2, utf8_append, utf8_append, utf8_append, utf8_append, utf8_append, b1, b2]
+    simp only [List.append_assoc, List.cons_append, List.nil_append]
+  induction m with
+  | nil => cases hn
+  | cons k ks ih =>
+    rcases List.mem_cons.mp hn with rfl | hk
+    · refine ⟨[], manifestString ks, ?_, ?_⟩
+      · simp [manifestString, fileNodeString]
+      · have := bytes [] (manifestString ks)
+        simpa [manifestString, fileNodeString] using this
+    · obtain ⟨pre, post, hs, _⟩ := ih hk
+      refine ⟨fileNodeString k ++ '\n' :: pre, post, ?_, ?_⟩
+      · show fileNodeString k ++ '\n' :: manifestString ks = _
+        rw [hs]; simp only [List.append_assoc, List.cons_append]
+      · have := bytes (fileNodeString k ++ '\n' :: pre) post
+        rw [← this]
+        show utf8 (fileNodeString k ++ '\n' :: manifestString ks) = _
+        rw [hs]; simp only [List.append_assoc, List.cons_append]
+
+/-- The manifest order is the order of the LITERAL paths (`List Char` order = code point order =
+    UTF-8 byte order): no folded / normalised key is involved. -/
+theorem manifest_order_literal {nodes : List FileNode} {m : Manifest} (h : newManifest nodes = .ok m) :
+    m.Pairwise (fun a b => a.path ≤ b.path) ∧ m.Perm nodes := by
+  have hm := (newManifest_eq_ok h).2
+  subst hm
+  refine ⟨?_, sortBy_perm pathLe nodes⟩
+  exact (sortBy_pairwise pathLe pathLe_total pathLe_trans nodes).imp
+    (fun hab => of_decide_eq_true hab)
+
+/-- DISTINCT SPELLINGS, DISTINCT MANIFESTS.  If some path of the first node set does not occur —
+    as the same sequence of code points — among the paths of the second, the two manifest texts
+    differ; canonically equivalent, compatibility equivalent or case-folded spellings are simply
+    different paths. -/
+theorem distinct_spellings_distinct_manifests (n₁ n₂ : List FileNode) (h1 : WF n₁) (h2 : WF n₂)
+    (m₁ m₂ : Manifest) (e1 : newManifest n₁ = .ok m₁) (e2 : newManifest n₂ = .ok m₂)
+    (n : FileNode) (hn : n ∈ n₁) (hp : ∀ k ∈ n₂, k.path ≠ n.path) :
+    manifestString m₁ ≠ manifestString m₂ := by
+  intro h
+  have hperm := (manifestString_injective n₁ n₂ h1 h2 m₁ m₂ e1 e2 h).2
+  exact hp n (hperm.subset hn) rfl
+
+/-- ANOTHER SPELLING IS ANOTHER DIGEST (corollary of `digest_changes`).  `b₁` has a module file at
+    path `p`; `b₂` has no file spelled `p` (it may have one spelled in any other normalisation form
+    of the same text, with the same content): the two digests differ, H not colliding on the inputs
+    compared. -/
+theorem spelling_changes_digest (H : Bytes → Digest) (b₁ b₂ : Bucket) (d₁ d₂ : List MDigest)
+    (h1 : BucketOK b₁) (h2 : BucketOK b₂)
+    (hH : NoCollision H (b5Inputs H b₁ d₁ ++ b5Inputs H b₂ d₂))
+    (g₁ g₂ : MDigest) (e1 : moduleB5 H b₁ d₁ = .ok g₁) (e2 : moduleB5 H b₂ d₂ = .ok g₂)
+    (p : Str) (c : Bytes) (hin : (p, c) ∈ filterModule b₁) (hout : ∀ e ∈ b₂, e.1 ≠ p) :
+    g₁ ≠ g₂ :=
+  digest_changes H b₁ b₂ d₁ d₂ h1 h2 hH g₁ g₂ e1 e2
+    (Or.inl ⟨(p, c), fun h => hout _ (List.mem_filter.mp (h.mp hin)).1 rfl⟩)
+
+/-- U+00E9 (NFC) and e U+0301 (NFD): the same text for a reader, two paths for buf -/
+def eNFC : Str := [Char.ofNat 0xe9]
+def eNFD : Str := ['e', Char.ofNat 0x301]
+def exNFC : Bucket := [(eNFC ++ ".proto".toList, [1]), ("b.proto".toList, [2])]
+def exNFD : Bucket := [(eNFD ++ ".proto".toList, [1]), ("b.proto".toList, [2])]
+def exBoth : Bucket := [(eNFC ++ ".proto".toList, [1]), (eNFD ++ ".proto".toList, [1])]
+
+-- different code points, different bytes in what is hashed
+example : eNFC ≠ eNFD ∧ utf8 eNFC = [0xc3, 0xa9] ∧ utf8 eNFD = [0x65, 0xcc, 0x81] := by decide
+
+set_option maxRecDepth 1000000 in
+-- the hypotheses of `spelling_changes_digest` hold for the module renamed from the NFC to the NFD
+-- spelling (same content): the digest changes
+example : BucketOK exNFC ∧ BucketOK exNFD ∧
+    NoCollision toyH (b5Inputs toyH exNFC [] ++ b5Inputs toyH exNFD []) ∧
+    (moduleB5 toyH exNFC []).toBool = true ∧ (moduleB5 toyH exNFD []).toBool = true ∧
+    (eNFC ++ ".proto".toList, [1]) ∈ filterModule exNFC ∧ (∀ e ∈ exNFD, e.1 ≠ eNFC ++ ".proto".toList) ∧
+    moduleB5 toyH exNFC [] ≠ moduleB5 toyH exNFD [] := by
+  refine ⟨⟨by decide, by decide⟩, ⟨by decide, by decide⟩, by unfold NoCollision; decide,
+    by decide, by decide, by decide, by decide, by decide⟩
+
+set_option maxRecDepth 1000000 in
+-- a module holding BOTH spellings is a valid module with two module files (no duplicate path), and its
+-- manifest lists them in byte order: `e U+0301` (65 CC 81) before `U+00E9` (C3 A9)
+example : BucketOK exBoth ∧ (moduleB5 toyH exBoth []).toBool = true ∧
+    (filterModule exBoth).length = 2 ∧
+    (sortBy pathLe [⟨eNFC ++ ".proto".toList, zeroDigest⟩, ⟨eNFD ++ ".proto".toList, zeroDigest⟩]).map (·.path)
+      = [eNFD ++ ".proto".toList, eNFC ++ ".proto".toList] := by
+  refine ⟨⟨by decide, by decide⟩, by decide, by decide, by decide⟩
+
+set_option maxRecDepth 1000000 in
+-- the order is that of the literal paths, NOT that of their NFC forms: `e U+0301 x` < `f` < `U+00E9`
+-- (sorting by NFC-folded paths would give f, é, éx)
+example : (sortBy pathLe [⟨[Char.ofNat 0xe9], zeroDigest⟩, ⟨['f'], zeroDigest⟩, ⟨eNFD ++ ['x'], zeroDigest⟩]).map (·.path)
+    = [eNFD ++ ['x'], ['f'], [Char.ofNat 0xe9]] := by decide
+
+end Literal
+
 end BufProofs.C08
